@@ -956,3 +956,4 @@ def replay(ctx, payload):
                             "exception-on-valid-targets"}   # replay the case (the whole history) as recorded
     eval_cases(ctx, [payload["case"]])
     ctx.extra.pop("_shrunk", None)
+THEOREMS += ['gen_region_tree_init']   # translator tie, second round (Props/C12Gen.lean)
